@@ -29,7 +29,7 @@ ASSUME_KANI = [
 
 PROPS = {
     "C05": dict(
-        crates={BROKER: tags("c05")},
+        units={"quick": [(BROKER, "channel")], "thorough": [(BROKER, "channel_t")]},
         level="proof",
         timeout={"quick": 600, "thorough": 1500},
         jobs={"quick": 12, "thorough": 8},
@@ -57,7 +57,7 @@ PROPS = {
         design_ref="DESIGN.md section 3 (C05)",
     ),
     "C09": dict(
-        crates={BROKER: tags("c09")},
+        units={"quick": [(BROKER, "conn_id")], "thorough": [(BROKER, "conn_id_t")]},
         level="proof",
         timeout={"quick": 600, "thorough": 1500},
         jobs={"quick": 12, "thorough": 8},
@@ -76,7 +76,7 @@ PROPS = {
         design_ref="DESIGN.md section 3 (C09)",
     ),
     "C12": dict(
-        crates={BROKER: tags("c12")},
+        units={"quick": [(BROKER, "acceptor")], "thorough": [(BROKER, "acceptor_t")]},
         level="proof",
         timeout={"quick": 600, "thorough": 1500},
         jobs={"quick": 12, "thorough": 8},
@@ -93,5 +93,23 @@ PROPS = {
         level_note="Full-width proof of the pure selection function. Trusted: rustc/Kani/CBMC/CaDiCaL. Outside: the async handshake "
                    "(Acceptor::accept, ClientBuilder), gates/down-translation lemmas are added in later revisions.",
         design_ref="DESIGN.md section 3 (C12)",
+    ),
+    "C01": dict(
+        units={"quick": [(CORE, "buf_ext"), (CORE, "leaf_rt"), (CORE, "shapes_basic")],
+               "thorough": [(CORE, "buf_ext"), (CORE, "leaf_rt"), (CORE, "leaf_rt_t"), (CORE, "shapes_basic")]},
+        level="proof",
+        timeout={"quick": 900, "thorough": 1800},
+        jobs={"quick": 14, "thorough": 14},
+        par_units=4,
+        mem_gb=14,
+        min_harnesses={"quick": 20, "thorough": 22},
+        functions=[],
+        bounds="",
+        outside="",
+        stubs=[],
+        assumptions=ASSUME_KANI,
+        explanation="",
+        level_text="tbd",
+        level_note="tbd",
     ),
 }
